@@ -497,9 +497,8 @@ func runCase(run *vlib.Run, agg *vlib.HitAgg, i int) {
 	run.Count("subscriptions_accepted", len(a.Instances))
 	run.Count("subscriptions_live_at_end", len(a.Live()))
 	run.Count("log_events", len(a.Events))
-	run.Count("max_reruns_after_last_write", 0)
-	if reruns > int(run.Counter("max_reruns_after_last_write_seen")) {
-		run.Count("max_reruns_after_last_write_seen", reruns-int(run.Counter("max_reruns_after_last_write_seen")))
+	if reruns > 5 {
+		run.Count("histories_with_more_than_5_reruns_after_the_last_write", 1)
 	}
 	reused := map[string]int{}
 	for _, inst := range a.Instances {
